@@ -570,6 +570,16 @@ def gen_crash(rng, heavy=True):
             "kill": {"after": after, "mode": mode, "delay_us": rng.choice([0, 50, 200, 500, 1000, 2000, 4000, 8000])}}
 
 
+def gen_crash_syscall(rng, heavy=True):
+    """the same write streams, killed at a deterministic point: the k-th page write / sync / journal unlink"""
+    c = gen_crash(rng, heavy)
+    sc = rng.choice(["pwrite64", "pwrite64", "pwrite64", "fdatasync", "unlink", "ftruncate"])
+    when = rng.choice([1, 2, 3, 4, 5]) if rng.random() < 0.3 else rng.randint(1, {"pwrite64": 400, "fdatasync": 60,
+                                                                                  "unlink": 20, "ftruncate": 20}[sc])
+    c["kill"] = {"mode": "syscall", "syscall": sc, "when": when, "after": 0}
+    return c
+
+
 # --------------------------------------------------------------------------- driver requests
 def strip_meta(c):
     return {k: v for k, v in c.items() if not k.startswith("_")}
